@@ -136,7 +136,7 @@ def gtom(adj, nr_steps):
     Elements of 'gt' are bounded between 0 and 1.  The 'gt' matrix can be
     converted from a similarity to a distance matrix by taking 1-gt.
     '''
-    bm = binarize(adj, copy=True)
+    bm = binarize(adj, copy=True).astype(float)  # counts below: no logical (bool) or wrapping (uint8) arithmetic
     bm_aux = bm.copy()
     nr_nodes = len(adj)
 
@@ -267,6 +267,7 @@ def matching_ind_und(CIJ0):
     M0 : NxN np.ndarray
         matching index matrix
     '''
+    CIJ0 = np.asarray(CIJ0, dtype=float)  # the same network whatever the storage: arithmetic below must not be logical (bool) or wrap (small integers)
     K = np.sum(CIJ0, axis=0)
     n = len(CIJ0)
     R = (K != 0)
